@@ -234,6 +234,8 @@ def rand_history(rng, spec, L):
     closed = False
     foreign_fields = ['ffa', 'ffb', 'ffc']
     legacy_stem = {}
+    seen_sc = [list(sc)]
+    seen_meta = {}
     for _ in range(L):
         if closed:
             ops.append(dict(k='reload')); closed = False
@@ -241,7 +243,14 @@ def rand_history(rng, spec, L):
         k = rng.pick(['save_clusters', 'save_meta', 'save_meta', 'write_file', 'save_subset', 'close', 'reload', 'reload'])
         if k == 'save_clusters':
             ncl = rng.randrange(1, 6)
-            ops.append(dict(k=k, sc=[rng.randrange(ncl) for _ in range(ns)]))
+            if rng.random() < .4:
+                # an "undo": exactly an assignment seen before (the one on disk when the model was
+                # opened, or an earlier save) — not a fresh random vector
+                new = list(rng.pick(seen_sc))
+            else:
+                new = [rng.randrange(ncl) for _ in range(ns)]
+                seen_sc.append(new)
+            ops.append(dict(k=k, sc=new))
         elif k == 'save_meta':
             ids = rng.sample(range(0, 8), rng.randrange(0, 5))
             kind = rng.randrange(4)
@@ -249,7 +258,12 @@ def rand_history(rng, spec, L):
             for i in ids:
                 v = [rng.pick([1, -3, 0, 12]), rng.pick([2.5, 3.0, -0.125, 1e-6]), rng.pick(TEXTS), None][kind if rng.random() < .7 else rng.randrange(4)]
                 m.append([i, v])
-            ops.append(dict(k=k, field=rng.pick(FIELDS), m=m))
+            field = rng.pick(FIELDS)
+            if seen_meta.get(field) and rng.random() < .3:
+                m = [list(x) for x in rng.pick(seen_meta[field])]       # re-save an earlier mapping of this field
+            else:
+                seen_meta.setdefault(field, []).append(m)
+            ops.append(dict(k=k, field=field, m=m))
         elif k == 'write_file':
             kind = rng.pick(['valid', 'empty', 'ragged', 'quote', 'no_cluster_id', 'cluster_info', 'legacy_csv', 'legacy_csv'])
             ext = rng.pick(['tsv', 'csv'])
